@@ -11,4 +11,6 @@ trap 'rm -rf "$SCR"' EXIT
 "$VERIF/build.sh" "${VERIF_REPO:-/repo}" "$SCR"
 # instrumented CLI binary (C11) warms the cmd package too
 (cd "${VERIF_REPO:-/repo}" && go build -overlay "$SCR/ov/overlay.json" -tags verif -o "$SCR/goalign" .)
+# conformance of the instrumentation: goalign's own tests on the instrumented tree (pass-through mode)
+"$VERIF/conformance.sh" "${VERIF_REPO:-/repo}"
 echo "setup ok"
